@@ -102,11 +102,23 @@ def run_hist(hist, H, recvkind, salt):
     holder = H.tags.div() if recvkind == "tag" else None
     x = holder.children if holder is not None else H.TagList()
     out = []
+    lent = []        # TagLists that were handed in as arguments, with their projection at that time
+
+    def taglists(a):
+        if isinstance(a, H.TagList):
+            yield a
+        if isinstance(a, (list, tuple, H.TagList)):
+            for e_ in a:
+                yield from taglists(e_)
     for step, h in enumerate(hist):
         op = h["op"]
         act = op["act"]
         alias = {} if (salt + step) % 3 == 0 else None
         args = [conc(a, H, cls, salt + step, alias) for a in op["args"]]
+        for a_ in args:
+            for tl in taglists(a_):
+                if len(lent) < 40 and not any(tl is o for o, _ in lent):
+                    lent.append((tl, proj(tl, H, cls)))
         # is_tag_child on fresh copies of the arguments (iterators are one-shot)
         probe = [conc(a, H, cls, salt + step) for a in op["args"]]
         if act in ("Extend", "IAdd", "Add", "RAdd"):
@@ -165,7 +177,9 @@ def run_hist(hist, H, recvkind, salt):
         post = proj(x, H, cls)
         out.append({"op": op, "exc": exc, "post": post, "recv": proj(old, H, cls),
                     "resIsList": bool(res_is_list and type(x) is H.TagList),
-                    "nodeok": all(H.is_tag_node(e) for e in list(x)), "childok": bool(childok)})
+                    "nodeok": all(H.is_tag_node(e) for e in list(x)), "childok": bool(childok),
+                    # a list that was only ever an argument has had no operation applied to it
+                    "lentSame": all(proj(o, H, cls) == p0 for o, p0 in lent)})
     return out
 
 
